@@ -359,6 +359,7 @@ def run(ctx):
     disjoint_all_pairs(ctx, py)
     parser_state_fresh(ctx, py)
     variables_complete(ctx, py)
+    printer_output(ctx, py)
     arguments_by_name(ctx, py)
     slicer_helpers(ctx, py)
     optional_fields(ctx, py)
@@ -1105,6 +1106,198 @@ def slicer_helpers(ctx, py: PyRepo):
                'statements of a block: a constant that is missed is not declared in the slice', py.where(SLICER, fn))
 
 
+def printer_output(ctx, py: PyRepo):
+    """What the Encoder writes for a node, read as sequences of output items per path (loops taken 0, 1 and 2 times):
+    constants `write('..')` and VALUE tokens (a field written, a child visited, a computed letter).
+    * every field of the node class is written or visited on some path, and a loop over a field outputs its element on every
+      iteration - a field that is not printed cannot come back from the parser;
+    * two value tokens never touch, and a value token touches a constant only at a blank (the one designed exception: the
+      constant `$` directly before the statement letter, which together are the keyword) - tokens that are glued re-parse as one
+      token.  A junction is excused when the path tests the blankness of that very field (`comment.text[..].isspace()`)."""
+    ci = py.cls('Encoder', AST)
+    amod = py.modules[AST]
+    n = 0
+    for mname, fn in sorted(ci.methods.items()):
+        if not mname.startswith('postvisit_') or len(fn.args.args) != 2:
+            continue
+        node = fn.args.args[1].arg
+        ann = ast.unparse(fn.args.args[1].annotation) if fn.args.args[1].annotation is not None else ''
+        ncls = amod.classes.get(ann.strip('\'"'))
+        if ncls is None:
+            continue
+        loopvars = {}
+
+        def items_of(stmts, conds, depth=0):
+            """-> list of (items, conds, ended): the output items along each path; `ended` when the path left the method"""
+            outs = [([], list(conds), False)]
+            for st in stmts:
+                live = [o for o in outs if not o[2]]
+                done = [o for o in outs if o[2]]
+                nxt = []
+                call = st.value if isinstance(st, ast.Expr) and isinstance(st.value, ast.Call) else None
+                own = call is not None and isinstance(call.func, ast.Attribute) and isinstance(call.func.value, ast.Name) and call.func.value.id == 'self'
+                if own and call.func.attr in ('write', 'visit') and len(call.args) == 1:
+                    a = call.args[0]
+                    alts = [a.body, a.orelse] if isinstance(a, ast.IfExp) else [a]
+                    for alt in alts:
+                        it = ('const', alt.value) if call.func.attr == 'write' and isinstance(alt, ast.Constant) and isinstance(alt.value, str) \
+                            else ('tok', ast.unparse(alt), st)
+                        cc = [(ast.unparse(a.test), alt is a.body)] if isinstance(a, ast.IfExp) else []
+                        nxt += [(i + [it], c + cc, False) for i, c, _e in live]
+                elif own and call.func.attr in ci.methods and depth < 2 and not any(isinstance(x, ast.Starred) for x in call.args) and not call.keywords:
+                    # a helper method of the encoder: its body, with the arguments in place of the parameters
+                    import copy as _cp
+                    h = ci.methods[call.func.attr]
+                    hp = [x.arg for x in h.args.args[1:]]
+                    if len(hp) == len(call.args):
+                        table = dict(zip(hp, call.args))
+
+                        class Sub(ast.NodeTransformer):
+                            def visit_Name(self, n_):
+                                return _cp.deepcopy(table[n_.id]) if n_.id in table and isinstance(n_.ctx, ast.Load) else n_
+                        hb = [Sub().visit(_cp.deepcopy(x)) for x in h.body]
+                        for i, c, _e in live:
+                            for bi, bc, _be in items_of(hb, c, depth + 1):
+                                nxt.append((i + bi, bc, False))
+                    else:
+                        nxt = live
+                elif isinstance(st, ast.If):
+                    te, pol = st.test, True
+                    while isinstance(te, ast.UnaryOp) and isinstance(te.op, ast.Not):
+                        te, pol = te.operand, not pol
+                    t = ast.unparse(te)
+                    for i, c, _e in live:
+                        for bi, bc, be in items_of(st.body, c + [(t, pol)], depth):
+                            nxt.append((i + bi, bc, be))
+                        for bi, bc, be in items_of(st.orelse, c + [(t, not pol)], depth):
+                            nxt.append((i + bi, bc, be))
+                elif isinstance(st, ast.For):
+                    for x in ast.walk(st.target):
+                        if isinstance(x, ast.Name):
+                            loopvars[x.id] = ast.unparse(st.iter)
+                    body = [(bi, bc) for bi, bc, _be in items_of(st.body, [], depth)]
+                    for i, c, _e in live:
+                        nxt.append((i, c + [(f'for:{ast.unparse(st.iter)}:0', True)], False))
+                        for bi, bc in body:
+                            nxt.append((i + bi, c + bc, False))
+                            for bj, bc2 in body[:3]:
+                                nxt.append((i + bi + bj, c + bc + bc2, False))
+                elif isinstance(st, ast.With):
+                    for i, c, _e in live:
+                        for bi, bc, be in items_of(st.body, c, depth):
+                            nxt.append((i + bi, bc, be))
+                elif isinstance(st, (ast.Return, ast.Raise)):
+                    nxt = [(i, c, True) for i, c, _e in live]
+                else:
+                    if isinstance(st, (ast.Assign, ast.AnnAssign)) and st.value is not None:
+                        t_ = st.targets[0] if isinstance(st, ast.Assign) else st.target
+                        if isinstance(t_, ast.Name):
+                            loopvars[t_.id] = ast.unparse(st.value)      # a local that names (part of) the node
+                    nxt = live
+                outs = (done + nxt)[:600]
+            return outs
+
+        paths_ = [(i, c) for i, c, _e in items_of(fn.body, [])]
+        n += 1
+        where = py.where(AST, fn)
+        # (1) fields
+        fields = [f for f, _t in ncls.fields]
+        for b in py.mro(ncls)[1:]:
+            if any(d.startswith('dataclass') for d in b.decorators):
+                fields = [f for f, _t in b.fields if f not in fields] + fields
+        fields = [f for f in fields if 'cache' not in f]
+        toks = [t[1] for i, _c in paths_ for t in i if t[0] == 'tok']
+
+        def mentions_field(txt, f):
+            if re.search(rf'\b{node}\.{f}\b', txt):
+                return True
+            return any(re.search(rf'\b{v}\b', txt) and re.search(rf'\b{node}\.{f}\b', src) for v, src in loopvars.items())
+        missing = [f for f in fields if not any(mentions_field(t, f) for t in toks)
+                   and not (f == 'proof' and ncls.name == 'StructuredStatement')]
+        if ncls.name == 'StructuredStatement' and 'proof' not in fields and not any(mentions_field(t, 'proof') for t in toks):
+            missing.append('proof (of a provable statement)')
+        # a loop over a field outputs its element on every iteration path
+        silent_loops = []
+        for lp in [x for x in ast.walk(fn) if isinstance(x, ast.For) and re.search(rf'\b{node}\.\w+', ast.unparse(x.iter))]:
+            tnames = [x.id for x in ast.walk(lp.target) if isinstance(x, ast.Name)]
+            for bi, _bc, _be in items_of(lp.body, []):
+                if not any(t[0] == 'tok' and any(re.search(rf'\b{v}\b', t[1]) for v in tnames) for t in bi):
+                    silent_loops.append(ast.unparse(lp.iter))
+        # ... on EVERY path, unless the path knows the field to be empty (`len(x.f) == 0`, `not x.f`, `x.f is None`), the node to be of
+        # a class without it (an isinstance test), or an option of the encoder says to leave it out
+        def empty_by(ct, b_, f):
+            fx = rf'{node}\.{f}'
+            if re.fullmatch(rf'len\({fx}\) == 0', ct) or re.fullmatch(rf'{fx} is None', ct) or re.fullmatch(rf'not {fx}', ct):
+                return b_ is True
+            if re.fullmatch(rf'len\({fx}\) != 0', ct) or re.fullmatch(fx, ct) or re.fullmatch(rf'len\({fx}\) > 0', ct) or re.fullmatch(rf'{fx} is not None', ct) or re.fullmatch(rf'len\({fx}\)', ct):
+                return b_ is False
+            return False
+        per_path = set()
+        for i, c in paths_:
+            ptoks = [t[1] for t in i if t[0] == 'tok']
+            for f in fields + (['proof'] if ncls.name == 'StructuredStatement' and 'proof' not in fields else []):
+                if any(mentions_field(t, f) for t in ptoks):
+                    continue
+                if any(empty_by(ct, b_, f) for ct, b_ in c) or any(ct == f'for:{node}.{f}:0' or (ct.startswith('for:') and ct.endswith(':0') and f'{node}.{f}' in ct) for ct, _b in c):
+                    continue
+                if f == 'proof' and (any(ct.startswith('isinstance(') and not (ct == f'isinstance({node}, ProvableStatement)' and b_) for ct, b_ in c) and
+                                     not any(ct == f'isinstance({node}, ProvableStatement)' and b_ for ct, b_ in c)
+                                     or any(ct.startswith('self.') and b_ for ct, b_ in c)):
+                    continue
+                per_path.add(f)
+        if per_path:
+            missing = sorted(set(missing) | {f'{f} (on a path that does not know it to be empty)' for f in per_path})
+        # the statement keyword is `$` + letter: the constant `$` is always followed directly by a value token
+        for i, c in paths_:
+            for k_, t in enumerate(i):
+                if t == ('const', '$') and not (k_ + 1 < len(i) and i[k_ + 1][0] == 'tok'):
+                    missing = sorted(set(missing) | {'the statement letter after `$`'})
+        ctx.ob('printer-output', f'{mname}/fields', not missing and not silent_loops,
+               f'Encoder.{mname}: ' + '; '.join(([f'the field(s) {missing} of {ncls.name} are never written'] if missing else [])
+                                               + ([f'an iteration over {sorted(set(silent_loops))} writes nothing of its element'] if silent_loops else []))
+               + ' - what is not printed does not come back from the parser', where)
+        # (2) junctions
+        bad = set()
+        for i, c in paths_:
+            for x, y in zip(i, i[1:]):
+                if x[0] == 'tok' and y[0] == 'tok':
+                    glued = f'`{x[1]}` and `{y[1]}` are written next to each other'
+                elif x[0] == 'tok' and y[0] == 'const':
+                    glued = None if (y[1][:1].isspace()) else f'`{x[1]}` is followed by {y[1]!r} without a blank'
+                elif x[0] == 'const' and y[0] == 'tok':
+                    glued = None if (x[1][-1:].isspace() or x[1] == '$') else f'{x[1]!r} is followed by `{y[1]}` without a blank'
+                else:
+                    glued = None if (x[1][-1:].isspace() or y[1][:1].isspace() or not x[1] or not y[1]) else f'{x[1]!r} is followed by {y[1]!r} without a blank'
+                if glued:
+                    tokfield = [t for t in (x, y) if t[0] == 'tok']
+                    if any('isspace' in ct and any(re.search(r'\b' + re.escape(tk[1]) + r'\b', ct) for tk in tokfield) for ct, _b in c):
+                        continue
+                    bad.add(glued)
+        # (3) delimiters come in pairs on every path, and a provable statement always gets its `$=`
+        pairs_ = [('(', ')'), ('${', '$}'), ('$(', '$)'), ('$[', '$]')]
+        unbal = set()
+        for i, c in paths_:
+            words = [w for t in i if t[0] == 'const' for w in t[1].split()]
+            for o_, c_ in pairs_:
+                depth_ = 0
+                for w in words:
+                    if w == o_:
+                        depth_ += 1
+                    elif w == c_:
+                        depth_ -= 1
+                        if depth_ < 0:
+                            break
+                if depth_ != 0:
+                    unbal.add(f'`{o_}` / `{c_}` are not written in pairs')
+            if any(ct == f'isinstance({node}, ProvableStatement)' and b_ for ct, b_ in c) and '$=' not in words:
+                unbal.add('a provable statement is written without `$=`')
+        ctx.ob('printer-output', f'{mname}/delimiters-in-pairs', not unbal,
+               f'Encoder.{mname}: ' + '; '.join(sorted(unbal)) + ' - the text does not re-parse to the node', where)
+        ctx.ob('printer-output', f'{mname}/tokens-are-separated', not bad,
+               f'Encoder.{mname}: ' + '; '.join(sorted(bad)[:3]) + ' - the two re-parse as one token', where)
+    ctx.require(n >= 8, 'anchor vanished: Encoder.postvisit_* methods that write their node')
+
+
 def arguments_by_name(ctx, py: PyRepo):
     """The slicer passes five same-shaped collections and pairs of statements between its functions, positionally, and no test
     exercises it.  An argument that is spelled like a DIFFERENT parameter of the callee than the one it is bound to - a plain name
@@ -1128,6 +1321,10 @@ def arguments_by_name(ctx, py: PyRepo):
             return fields or None
         return None
 
+    def params_of_in(name, mname_):
+        g = py.modules[mname_].functions.get(name)
+        return [a.arg for a in g.args.args] if g is not None else None
+
     def spelled(e):
         if isinstance(e, ast.Name):
             return e.id
@@ -1136,12 +1333,12 @@ def arguments_by_name(ctx, py: PyRepo):
         return None
 
     for _mname, qn, f, _ci in py.all_functions():
-        if _mname != SLICER:
+        if _mname not in (SLICER, PARSER):
             continue
         for c in ast.walk(f):
             if not (isinstance(c, ast.Call) and isinstance(c.func, ast.Name)):
                 continue
-            ps = params_of(c.func.id)
+            ps = params_of(c.func.id) or (params_of_in(c.func.id, _mname) if _mname != SLICER else None)
             if not ps or any(isinstance(a, ast.Starred) for a in c.args) or len(c.args) > len(ps):
                 continue
             names = [spelled(a) for a in c.args]
@@ -1155,7 +1352,7 @@ def arguments_by_name(ctx, py: PyRepo):
             if any(nm in ps for nm in names if nm):
                 n += 1
                 ctx.ob('slice-closure', f'arguments-by-name/{qn.split(".")[-1]}->{c.func.id}@{c.lineno - f.lineno}', not wrong,
-                       f'{qn}: {c.func.id}(..): ' + '; '.join(wrong) + ' - two arguments are exchanged', py.where(SLICER, c))
+                       f'{qn}: {c.func.id}(..): ' + '; '.join(wrong) + ' - two arguments are exchanged', py.where(_mname, c))
     ctx.require(n >= 3, 'metamath_extract_slice: no call passes an argument under its parameter\'s name (rule arguments-by-name has nothing to decide)')
 
 
